@@ -46,5 +46,6 @@ props! {
     "C04" => c04,
     "C05" => c05,
     "C06" => c06,
+    "C07" => c07,
     "C09" => c09,
 }
